@@ -1429,6 +1429,7 @@ func main() {
 		tags = append(tags, tag)
 	}
 	replayGate, replayConc, replayGateMode := -1, -1, 0
+	var heldReplay, heldCorpus []heldJob
 	if o.Replay != "" {
 		var g gateResult
 		cq.LoadReplay(o.Replay, &g)
@@ -1442,6 +1443,14 @@ func main() {
 		case "concurrent-close":
 			replayConc = g.Iid
 			add(g.Iid, []op{{K: "bindw"}}, 0, "replay")
+		case "held":
+			var h heldResult
+			cq.LoadReplay(o.Replay, &h)
+			// which select case the loop takes after the release is random: replay the run several times
+			for i := 0; i < 8; i++ {
+				heldReplay = append(heldReplay, heldJob{k: heldKinds[h.Hid], mode: h.Mode, p0: h.P0, ps: h.Ps, qs: h.Qs})
+			}
+			add(8, []op{{K: "bindw"}}, 0, "replay")
 		default:
 			var sc script
 			cq.LoadReplay(o.Replay, &sc)
@@ -1462,6 +1471,11 @@ func main() {
 			cq.LoadReplay(f, &sc)
 			if sc.Name != "" && len(sc.Ops) > 0 && len(sc.Members) == 0 {
 				add(sc.Iid, sc.Ops, sc.FailW, "corpus")
+			}
+			var h heldResult
+			cq.LoadReplay(f, &h)
+			if h.Special == "held" && h.Hid >= 0 && h.Hid < len(heldKinds) {
+				heldCorpus = append(heldCorpus, heldJob{k: heldKinds[h.Hid], mode: h.Mode, p0: h.P0, ps: h.Ps, qs: h.Qs})
 			}
 		}
 		// 3 random chains of lifecycle-bearing members (at least one per direction), ids 14..16
@@ -1688,6 +1702,23 @@ func main() {
 		}
 		cw.Wait()
 	}
+	// held-loop runs: the loop goroutine is held inside its own write, packet calls park at the hand-off, Close
+	// is called from another goroutine (set c11h)
+	var held []*heldResult
+	switch {
+	case len(heldReplay) > 0:
+		held = runHeldJobs(heldReplay)
+	case o.Replay == "" && os.Getenv("C11_ONLY") != "gates":
+		held = runHeldJobs(append(heldCorpus, heldJobs(rng, o.Scale(4, 60))...))
+	}
+	nHeldCaught := 0
+	for _, h := range held {
+		if h.Entered {
+			nHeldCaught++
+		}
+	}
+	extra["held_loop_runs"] = len(held)
+	extra["held_loop_runs_with_the_loop_caught_in_its_write"] = nHeldCaught
 	extra["concurrent_close_runs"] = nConc
 	extra["gated_close_runs"] = len(gates)
 	extra["gated_close_runs_with_a_write_in_progress"] = nEntered
@@ -1720,6 +1751,9 @@ func main() {
 			})
 		}
 		sets = append(sets, gset)
+	}
+	if len(held) > 0 {
+		sets = append(sets, heldSet(held))
 	}
 	cq.Write(o, "a script of at least two calls (a final Close is always appended); a gated run with a write in progress", sets, extra, fails)
 }
